@@ -35,11 +35,11 @@ def main():
             n += 1
             path = os.path.join(base, m["file"])
             orig = open(path).read()
-            if orig.count(m["old"]) != 1:
+            if orig.count(m["old"]) != 1 and not (m.get("first") and orig.count(m["old"]) > 1):
                 print("SKIP  %-40s pattern occurs %d times in %s" % (m["name"], orig.count(m["old"]), m["file"]))
                 fails += 1
                 continue
-            open(path, "w").write(orig.replace(m["old"], m["new"]))
+            open(path, "w").write(orig.replace(m["old"], m["new"], 1))
             try:
                 # must still compile
                 cc = subprocess.run(["clang", "-fsyntax-only", "-w", "-DHAVE_CONFIG_H", "-I" + base + "/src", "-I/verif/.cache/build", "-I" + base + "/include", path], capture_output=True, text=True)
